@@ -1087,7 +1087,10 @@ func vpathOne(k int, seed int64, res *vh.Result) {
 		res.Violate("timeout-early", fmt.Sprintf("validator path: the round-1 timeout event reached the queue %v after the slot start, deadline %v", time.Since(origin), base+quick), beh, 1)
 	}
 	// 2. the real timer (armed by Instance.Start) fires through Validator.onTimeout into the queue
-	sleepUntil(origin, base+quick+15*time.Millisecond, false)
+	sleepUntil(origin, base+quick, false)
+	for q := v.Queues[role].Q; q.Len() == 0 && time.Since(origin) < base+quick+400*time.Millisecond; {
+		time.Sleep(time.Millisecond) // the callback may be late on a loaded machine; it is never early
+	}
 	live0 := res.Counters["vpath_live_events"]
 	evs := w.drain(2, "genuine round-1 timeout")
 	if has(evs, 1) {
